@@ -20,6 +20,8 @@ for d in seeded/C*/; do
   # a seeded change whose defect class has since been repaired in /repo no longer violates the property (see its meta.json)
   if grep -q '"status": "obsolete' "$d/meta.json" 2>/dev/null; then echo "| seeded/$id/patch.diff | $id | OBSOLETE (see seeded/$id/meta.json) | |"; continue; fi
   chk=$(echo "$id" | cut -c1-3)   # seeded/C05b is a second seed for C05
+  # a seed written for one property may be caught by the check of a neighbouring one (see its meta.json)
+  ov=$(sed -n 's/.*"check_override": "\(C[0-9][0-9]\)".*/\1/p' "$d/meta.json" 2>/dev/null | head -1); [ -n "$ov" ] && chk="$ov"
   r=$(tools/muttest.sh "$d/patch.diff" "$chk" 2>&1 | tail -1)
   res=$(echo "$r" | awk '{print $1}')
   key=$(echo "$r" | sed -n 's/.*violation key=\([^ ]*\): .*/\1/p' | cut -c1-90)
